@@ -112,6 +112,19 @@ func c09foreign() []c09foreignMsg {
 	wb := append([]byte{'A', 0xff, 0xff}, bb...)
 	wb = append(wb, 0x22, 1, 2)
 	out = append(out, c09foreignMsg{"a non-final binary chunk of 65535 octets and a short final one", wb, true, string(bb) + "\x01\x02"})
+	// a chunked value closed by an EMPTY final chunk (x20 / 'B' 0 0 / x34 0 for binaries, x00 / 'S' 0 0 for strings)
+	b4 := bytes.Repeat([]byte{0x3c}, 4096)
+	for i, fin := range [][]byte{{0x20}, {'B', 0, 0}, {0x34, 0}} {
+		w := append(append([]byte{'A', 0x10, 0x00}, b4...), fin...)
+		out = append(out, c09foreignMsg{fmt.Sprintf("a 4096-octet non-final binary chunk closed by the empty final chunk #%d", i), w, true, string(b4)})
+		w2 := append([]byte{0x41, 0x00, 0x03, 1, 2, 3, 0x41, 0x00, 0x02, 4, 5}, fin...)
+		out = append(out, c09foreignMsg{fmt.Sprintf("two short non-final binary chunks closed by the empty final chunk #%d", i), w2, true, "\x01\x02\x03\x04\x05"})
+	}
+	s3 := strings.Repeat("é", 2048)
+	for i, fin := range [][]byte{{0x00}, {'S', 0, 0}, {0x30, 0}} {
+		w := append(append([]byte{'R', 0x08, 0x00}, s3...), fin...)
+		out = append(out, c09foreignMsg{fmt.Sprintf("a 2048-character non-final string chunk closed by the empty final chunk #%d", i), w, false, s3})
+	}
 	return out
 }
 
